@@ -229,4 +229,28 @@ theorem numberK_length : ∀ (l : List (String × Option RVal)) (c : List (Strin
     | none => simpa [numberK] using ih _
     | some v => simp [numberK, ih]
 
+
+theorem getD_append (l m : Data) (k : Key) :
+    getD (l ++ m) k = match getD l k with | some v => some v | none => getD m k := by
+  induction l with
+  | nil => simp [getD]
+  | cons kv rest ih =>
+    by_cases h : kv.1 = k
+    · simp [getD, h]
+    · simp [getD, h, ih]
+
+/-- with pairwise distinct keys, a lookup does not depend on the order of the entries -/
+theorem getD_reverse_of_nodup : ∀ (l : Data), (l.map (·.1)).Nodup → ∀ k, getD l.reverse k = getD l k := by
+  intro l
+  induction l with
+  | nil => intro _ k; rfl
+  | cons kv rest ih =>
+    intro hn k
+    simp only [List.map_cons, List.nodup_cons] at hn
+    rw [List.reverse_cons, getD_append, ih hn.2]
+    by_cases h : kv.1 = k
+    · have : getD rest k = none := (getD_none_iff rest k).2 (h ▸ hn.1)
+      simp [getD, h, this]
+    · cases hg : getD rest k <;> simp [getD, h, hg]
+
 end PlaybackModel.Recorder
